@@ -8,6 +8,7 @@ use vharness::refpdf::{self, FileSpec, Layout, Style};
 use vharness::{cmp, strict, util, Mode, Run};
 
 const N_DOCS: usize = 16;
+const ENTRY: &str = "entry points disagree: ";
 
 #[derive(Debug, Clone, PartialEq)]
 enum Outcome {
@@ -49,7 +50,16 @@ fn check_file(spec: &FileSpec, ch: &mut Chooser) -> (Outcome, Vec<u8>) {
         }
     }
     let trailer = &spec.sections.last().unwrap().trailer;
-    let doc: Document = match util::load(&bytes) {
+    let loaded = util::load(&bytes);
+    // every other public way of loading the same bytes (short reads, IncrementalDocument, and for files
+    // with at most one deviation also the path-taking functions incl. load_filtered with a keep-all
+    // filter) must agree with load_mem exactly
+    match util::entry_point_agreement(&bytes, &loaded, ch.deviations().len() <= 1) {
+        Ok(None) => {}
+        Ok(Some(m)) => return (Outcome::Fail(format!("{}{}", ENTRY, m)), bytes),
+        Err(e) => return (Outcome::SelfCheck(e), bytes),
+    }
+    let doc: Document = match loaded {
         Ok(d) => d,
         Err(e) => return (Outcome::Fail(e), bytes),
     };
@@ -129,7 +139,7 @@ fn report(run: &Run, spec: &FileSpec, doc: usize, style: usize, ch: &Chooser, ou
             std::process::exit(3);
         }
         Outcome::Fail(m) => {
-            let f = classify(spec, ch);
+            let f = if m.starts_with(ENTRY) { None } else { classify(spec, ch) };
             let mut c = case_json(doc, style, ch);
             c["file_hex_prefix"] = json!(vharness::objjson::hex(&bytes[..bytes.len().min(64)]));
             run.fail(f, c, &m, "lopdf loads exactly the objects, trailer and version the file defines");
@@ -167,7 +177,9 @@ fn main() {
     run.rule(
         "abstract documents rendered by the independent reference writer through a choice recorder: the all-default file, every \
          single deviation at every choice point (instance level), and pairs of deviations at class level; every file is first \
-         accepted by the strict reader (writer self-check), then loaded by lopdf and compared with the abstract document; \
+         accepted by the strict reader (writer self-check), then loaded by lopdf (load_mem) and compared with the abstract document, and loaded again through load_from with \
+         1-byte and 4093-byte reads, IncrementalDocument::load_from / load_mem and (files with <= 1 deviation) Document::load, \
+         load_filtered with a keep-all filter and IncrementalDocument::load from a scratch file, all of which must equal load_mem exactly; \
          non-trivial = file differs byte-wise from the default rendering of its document (counted by content hash)",
     );
     run.assume("reference writer harness/src/refpdf.rs emits only spellings ISO 32000-1 7.2-7.5 allows; hybrid-reference files and freed objects are outside the domain");
